@@ -278,17 +278,20 @@ impl Watcher {
                     // ref: https://github.com/talaia-labs/rust-teos/pull/190#discussion_r1218235632
                     .unwrap();
 
-                if let ConfirmationStatus::Rejected(reason) = self.responder.handle_breach(
+                let status: ConfirmationStatus = self.responder.handle_breach(
                     uuid,
                     Breach::new(dispute_tx.clone(), penalty_tx),
                     user_id,
-                ) {
-                    log::warn!("Appointment bounced in the Responder. Reason: {reason:?}");
-                    self.gatekeeper.delete_appointments(vec![uuid], false);
-                    TriggeredAppointment::Rejected
-                } else {
+                );
+                if status.accepted() {
                     log::info!("Appointment went straight to the Responder");
                     TriggeredAppointment::Accepted
+                } else {
+                    // Either rejected or already irrevocably resolved: there is nothing left to watch or track,
+                    // so the appointment must not be kept around (it would never get a tracker).
+                    log::warn!("Appointment bounced in the Responder. Reason: {status:?}");
+                    self.gatekeeper.delete_appointments(vec![uuid], false);
+                    TriggeredAppointment::Rejected
                 }
             }
 
@@ -392,11 +395,15 @@ impl Watcher {
                     &dispute_tx.compute_txid(),
                 ) {
                     Ok(penalty_tx) => {
-                        if let ConfirmationStatus::Rejected(_) = self.responder.handle_breach(
-                            uuid,
-                            Breach::new(dispute_tx.clone(), penalty_tx),
-                            appointment.user_id,
-                        ) {
+                        if !self
+                            .responder
+                            .handle_breach(
+                                uuid,
+                                Breach::new(dispute_tx.clone(), penalty_tx),
+                                appointment.user_id,
+                            )
+                            .accepted()
+                        {
                             invalid_breaches.push(uuid);
                         }
                     }
